@@ -8,3 +8,4 @@ open SSVerif.Lattice
 #print axioms C11_paths_are_grammar_paths
 #print axioms C11_first_best_in_lattice
 #print axioms C11_cache_same_object
+#print axioms C11_first_best_decided
